@@ -104,7 +104,7 @@ class ConverterFactory:
     def serialize(self, value: Any, **kwargs: Any) -> Any:
         """Convert the given value to string.
 
-        If the value is a list assume the value is a list of tokens.
+        If the value is a list or tuple assume the value is a list of tokens.
 
         Args:
             value: The input value
@@ -117,7 +117,7 @@ class ConverterFactory:
         if value is None:
             return None
 
-        if isinstance(value, list):
+        if collections.is_array(value):
             return " ".join(self.serialize(val, **kwargs) for val in value)
 
         instance = self.value_converter(value)
